@@ -335,6 +335,21 @@ class RTFDocument(BaseModel):
     def __init__(self, **data):
         super().__init__(**data)
 
+        # The defaults below are written into the body and header components.
+        # Work on private copies so that a component object shared with
+        # another document (or reused later) is never modified.
+        if isinstance(self.rtf_body, list):
+            self.rtf_body = [body.model_copy() for body in self.rtf_body]
+        elif self.rtf_body is not None:
+            self.rtf_body = self.rtf_body.model_copy()
+        if self.rtf_column_header:
+            self.rtf_column_header = [
+                [h.model_copy() if h is not None else None for h in header]
+                if isinstance(header, list)
+                else (header.model_copy() if header is not None else None)
+                for header in self.rtf_column_header
+            ]
+
         # Set default column widths based on DataFrame dimensions when a
         # DataFrame is provided.
         if self.df is not None:
